@@ -231,6 +231,14 @@ class NetGen:
                         "alpha": alpha,
                     }
                 )
+            if "homogeneous" in force or ("distinct" not in force and r.random() < 0.15):
+                # real networks mostly repeat the same link parameters (the examples do): everything equal
+                ref_l = dict(links[0])
+                for l in links:
+                    for k_ in ("lam", "L", "rho_max", "rho_crit", "v_free", "a", "beta"):
+                        l[k_] = ref_l[k_]
+                    if l["alpha"] is not None:
+                        l["alpha"] = 0.1
             desc = {"nodes": list(nodes), "links": links, "origins": [], "dests": []}
             ins, outs, _, _ = topology(desc)
             if shape_ in ("lanedrop", "lanegain"):
@@ -376,11 +384,16 @@ class NetGen:
         regime: None (mixed), "interior", "zero", "jam", "boundary".
         """
         r = self.rng
-        regime = regime or r.choice(("mixed", "mixed", "mixed", "interior", "boundary", "zero", "jam"))
+        regime = regime or r.choice(("mixed", "mixed", "mixed", "interior", "boundary", "zero", "jam", "uniform"))
+        uniform = None
+        if regime == "uniform":  # the same state in every segment of the network (a typical initial condition)
+            uniform = (r.choice((r.uniform(5.0, 30.0), r.uniform(40.0, 120.0))), r.uniform(20.0, 100.0))
         vals = {}
         ins, outs, org, dst = topology(desc)
 
         def rho_of(l):
+            if uniform:
+                return uniform[0]
             m = regime
             if m == "mixed":
                 m = r.choice(("interior", "interior", "interior", "boundary"))
@@ -398,6 +411,8 @@ class NetGen:
             )
 
         def v_of(l):
+            if uniform:
+                return uniform[1]
             m = regime
             if m == "mixed":
                 m = r.choice(("interior", "interior", "interior", "boundary"))
